@@ -268,6 +268,10 @@ static ares_bool_t ares_addr_equal(const struct ares_addr *addr1,
   }
 
   switch (addr1->family) {
+    case AF_UNSPEC:
+      /* The local address is not known on either side (socket functions
+       * without getsockname), there is nothing that could have changed */
+      return ARES_TRUE;
     case AF_INET:
       if (memcmp(&addr1->addr.addr4, &addr2->addr.addr4,
                  sizeof(addr1->addr.addr4)) == 0) {
